@@ -818,7 +818,8 @@ def lateBackoff (s : S) (k : Nat) (d t : Bool) : S := if backoff s then lateRecv
 /-- [proxy10] the worker goroutine is not running: parked in `waitNotify` with nothing signalled, or asleep in `doRetry`'s
 back-off.  An asynchronous `TerminateStream` is delivered in these states (a call racing with a RUNNING worker is not a label
 of the machine; the call landing inside `setupRetry` is driven on the implementation at the worker's yield sites and behaves
-as the call in the back-off — `processError` abandons the retry that was being set up, fix 4e7d4a7f0) -/
+as the call in the back-off — `processError` abandons the retry that was being set up, fix 4e7d4a7f0;
+`Lemmas/Downstream/TermInSetup10.lean`: the regenerated `setupRetry` with the regenerated `TerminateStream` at either yield site) -/
 def asleep (s : S) : Bool := parked s || backoff s
 
 /-- `TerminateStream(code)` on a handler created with `downStream.ID = hid`, with `between` interleaved inside its reset
